@@ -28,6 +28,10 @@ func (v *vVerifier) Verify(_ context.Context, raw string) (*oidc.IDToken, error)
 	v.raw = raw
 	v.ok = ndBool("library-accepts-token")
 	if !v.ok {
+		if ndBool("rejected-because-expired") {
+			// the library's typed expiry error (callers may look for it with errors.As)
+			return nil, &oidc.TokenExpiredError{Expiry: time.Unix(1600000000, 0)}
+		}
 		return nil, vErrVerify
 	}
 	return &oidc.IDToken{}, nil
@@ -50,7 +54,7 @@ func vJSON(tag string) interface{} {
 }
 
 // the nonce claim must hash-match the session's nonce (unless nonce checking is disabled)
-// verif: unwind=8 strlen=8 also=C14,C19,C04
+// verif: unwind=8 strlen=8 also=C14,C19,C04,C12
 func vh_C05_nonce() {
 	claims := map[string]interface{}{"sub": "someone"}
 	sessionNonce := ndBytes("session-nonce")
@@ -67,6 +71,10 @@ func vh_C05_nonce() {
 	ver := &vVerifier{}
 	p := &OIDCProvider{ProviderData: &ProviderData{Verifier: ver}, SkipNonce: ndBool("skip-nonce")}
 	s := &sessions.SessionState{IDToken: tok, Nonce: sessionNonce}
+	if ndBool("access-token-still-within-its-lifetime") {
+		exp := time.Unix(4102444800, 0)
+		s.ExpiresOn = &exp
+	}
 	ok := p.ValidateSession(context.Background(), s)
 	if ok {
 		verifReach("valid")
